@@ -46,8 +46,9 @@ struct in_gen64 IN;
 unsigned long long verif_k;
 int verif_old_bit;
 unsigned long long verif_g0, verif_g1, verif_g2, verif_g3, verif_g4, verif_g5, verif_g6, verif_g7;
-const void *g_ptr;	/* pointer argument of the last backend call */
-const void *g_bm;	/* bitmap argument of the last backend call */
+#define g_ptr verif_p0	/* pointer argument of the last backend call */
+#define g_bm verif_p1	/* bitmap argument of the last backend call */
+const unsigned char *verif_p0, *verif_p1;
 
 #define GHOSTS verif_g0, verif_g1, verif_g2, verif_g3, verif_g4, verif_g5, verif_g6, verif_g7, g_ptr, g_bm
 
@@ -103,8 +104,8 @@ static void log_call(ext2fs_generic_bitmap_64 bm, int op, __u64 a, __u64 b, cons
 	G_OP = op;
 	G_ARG = a;
 	G_NUM = b;
-	g_ptr = p;
-	g_bm = bm;
+	g_ptr = (const unsigned char *)p;
+	g_bm = (const unsigned char *)bm;
 }
 
 static int mb_mark(ext2fs_generic_bitmap_64 bm, __u64 arg)
